@@ -48,7 +48,14 @@ def job(j):
     rnd = random.Random(seed)
     kinds = ["family_3", "patchwork", "self_sufficient_child", "three_gen", "couple_unmarried", "couple_married", "spouses_apart", "single_parent_2", "family_2", "adult_child", "stepchild"]
     structs = [popgen.CANON[rnd.choice(kinds)] for _ in range(rnd.choice([2, 3]))]
-    P = popgen.compose(structs, date, rnd, sparse=rnd.random() < 0.5)
+    prof = None
+    if tid < 2:
+        # deterministic witnesses: members of every unit alternate in the individual-level flags that the known
+        # findings hinge on, so that those findings are observed on every run
+        structs = [popgen.CANON["family_2"], popgen.CANON["couple_unmarried"], popgen.CANON["single_parent_2"]]
+        prof = {"bürgerg_bezug_vorj": lambda i, r, d, rr: i % 2 == 0, "alleinerz": lambda i, r, d, rr: i % 2 == 1 and d["alter"] >= 18,
+                "monate_elterngeldbezug": lambda i, r, d, rr: (3 * i) % 14 if d["alter"] >= 18 else 0, "elterngeld_claimed": lambda i, r, d, rr: d["alter"] >= 18}
+    P = popgen.compose(structs, date, rnd, sparse=rnd.random() < 0.5, profile=prof)
     if rnd.random() < 0.6:   # several units in ONE household (except spouses living apart)
         hh0 = P[0]
         for p in P:
@@ -110,7 +117,7 @@ def run(tier):
     quick = tier == "quick"
     dates = ["2023-01-01", "2024-01-01"] + rnd.sample([d for d in DATES if d not in ("2023-01-01", "2024-01-01")], 2 if quick else len(DATES) - 2)
     njobs = 16 if quick else 300
-    outs = pool_map(job, sorted([(dates[t % len(dates)], rnd.randrange(1 << 30), t, str(chk.work)) for t in range(njobs)]))
+    outs = pool_map(job, sorted([(("2023-01-01" if t == 0 else "2015-01-01" if t == 1 else dates[t % len(dates)]), rnd.randrange(1 << 30), t, str(chk.work)) for t in range(njobs)]))
     cands = set()
     seen = set()
     for info in outs:
